@@ -45,7 +45,9 @@ type c14pnCons struct {
 	fn func(context.Context, core.Duty, *pbv1.PriorityResult) error
 }
 
-func (c *c14pnCons) ProposePriority(context.Context, core.Duty, *pbv1.PriorityResult) error { return nil }
+func (c *c14pnCons) ProposePriority(context.Context, core.Duty, *pbv1.PriorityResult) error {
+	return nil
+}
 func (c *c14pnCons) SubscribePriority(fn func(context.Context, core.Duty, *pbv1.PriorityResult) error) {
 	c.fn = fn
 }
@@ -288,6 +290,12 @@ func c14pNilCombos(t *testing.T, r *enumx.Run, key0, key1 *k1.PrivateKey, id0, i
 			}
 		}
 		stage, verdict = "wire", "rejected"
+		inner := "" // a panic inside the handler goroutine
+		defer func() {
+			if panicked == "" {
+				panicked = inner
+			}
+		}()
 		panicked = c14pGuard(func() {
 			if c.Wire {
 				b, err := proto.Marshal(m)
@@ -307,14 +315,22 @@ func c14pNilCombos(t *testing.T, r *enumx.Run, key0, key1 *k1.PrivateKey, id0, i
 				return
 			}
 			stage = "handler"
-			ctx, cancel := context.WithTimeout(context.Background(), 2*time.Millisecond)
-			_, _, _ = handler(ctx, id1, m)
-			cancel()
+			// The handler blocks until the instance answers: run it aside, take the request it buffers (if it accepts the
+			// message), then cancel it. No verdict depends on timing.
+			ctx, cancel := context.WithCancel(context.Background())
+			done := make(chan string, 1)
+			go func() { done <- c14pGuard(func() { _, _, _ = handler(ctx, id1, m) }) }()
 			var req request
 			select {
 			case req = <-p.getReqBuffer(core.DutyFromProto(m.GetDuty())):
-			default:
+				cancel()
+				inner = <-done
+			case inner = <-done:
+				cancel()
 				verdict = "rejected-by-handler"
+				return
+			}
+			if inner != "" {
 				return
 			}
 			verdict = "accepted"
